@@ -19,4 +19,18 @@ def inert_simplify_up(model):
     return out
 
 
-FAMILY_FUNCS = {"inert_simplify_up": inert_simplify_up}
+def always_shuffle(model):
+    """reduction classes whose resolved should_shuffle is the constant True: they are never planned as a tree reduction (their
+    aggregate needs all rows of a group at once - a combine stage would aggregate partial groups)"""
+    out = set()
+    for c in model.expr_classes():
+        m = c.provider("should_shuffle")
+        if m is None or not isinstance(m.node, (ast.FunctionDef, ast.AsyncFunctionDef)):
+            continue
+        rets = [r for r in ast.walk(m.node) if isinstance(r, ast.Return)]
+        if rets and all(isinstance(r.value, ast.Constant) and r.value.value is True for r in rets):
+            out.add(c.qual)
+    return out
+
+
+FAMILY_FUNCS = {"inert_simplify_up": inert_simplify_up, "always_shuffle": always_shuffle}
